@@ -32,8 +32,8 @@ ASSUMPTIONS = [
 ]
 
 SITES = ["ctx", "page", "body", "defarg", "encl", "loop", "module", "import", "builtin"]
-READS = ["body", "topdef", "nested", "anonblock", "namedblock", "callbody", "ctl", "attr", "filter"]
-BODY_SCOPE_READS = {"body", "anonblock", "callbody", "ctl", "attr", "filter"}
+READS = ["body", "topdef", "nested", "anonblock", "namedblock", "callbody", "ctl", "attr", "attr-multi", "filter"]
+BODY_SCOPE_READS = {"body", "anonblock", "callbody", "ctl", "attr", "attr-multi", "filter"}
 _k = itertools.count()
 
 
@@ -119,6 +119,9 @@ def build(S, r):
         read = "\n%% for z in [R(%s)]:\n${z}\n%% endfor\n" % name
     elif r == "attr":
         read = '<%%self:w2 a="${R(%s)}"/>' % name
+    elif r == "attr-multi":
+        # an attribute made of several ${} pieces; the name under test is read by the FIRST piece
+        read = '<%%include file="${PV(%s)}${DOT}html"/>${LAST()}' % name
     elif r == "filter":
         read = "${'x' | mk(R(%s))}" % name
     return head + body + pre + read + post, name
@@ -139,7 +142,16 @@ def helpers():
     def mk(val):
         return lambda s: str(val)
 
-    return {"R": R, "mk": mk}
+    cell = []
+
+    def PV(x):
+        cell.append(R(x))
+        return "/c04inc"
+
+    def LAST():
+        return cell[-1] if cell else "NOT-EVALUATED"
+
+    return {"R": R, "mk": mk, "PV": PV, "LAST": LAST, "DOT": "."}
 
 
 def check_matrix(S, r, strict, ev=None):
@@ -154,6 +166,7 @@ def check_matrix(S, r, strict, ev=None):
     src, name = build(S, r)
     lk = TemplateLookup(strict_undefined=strict)
     lk.put_string("/c04lib_%s.html" % name, '<%%def name="%s()">import</%%def>' % name)
+    lk.put_string("/c04inc.html", "")
     uri = "/c04_%d.html" % next(_k)
     ctx = helpers()
     if "ctx" in S:
